@@ -2,6 +2,7 @@
 import os, re, subprocess
 from common import sh, run_lines
 from lanetrace import run_lane, forced
+from tracecheck import run_traces
 from props.C02 import replay
 
 META = {
@@ -28,6 +29,9 @@ def run(ctx):
                         "pthread_create succeeds; the workqueue monitor classifies blocked threads correctly (observed by the pool scenario)"]
     cfg = [(2, 600, 1), (4, 400, 0), (8, 300, 0), (12, 200, 0), (6, 300, 0, 1), (10, 200, 0, 1), (6, 300, 0, 2), (4, 500, 0, 0, 2), (4, 500, 0, 0, 5)] if not ctx.thorough else [(2, 5000, 1), (2, 5000, 0), (4, 3000, 0), (8, 2500, 0), (12, 2000, 0), (16, 1500, 0), (3, 3000, 1), (6, 3000, 0, 1), (12, 1500, 0, 1), (8, 2000, 0, 2), (4, 5000, 0, 0, 2), (4, 5000, 0, 0, 3), (4, 5000, 0, 0, 16)]
     run_lane(ctx, cfg, what="c01")
+    # queues chained through target queues, deeper than two levels: random hierarchies over a serial bottom and over a workloop, all six submission forms
+    # (nothing stranded, every synchronous call returns)
+    run_traces(ctx, "c03_hier", [[ctx.seed * 100 + 40 + i, 6, 2000 if ctx.thorough else 300, i % 2] for i in range(6 if ctx.thorough else 3)], None, None, "L-api hierarchies", "hier", extra=["-ldl"], timeout=400)
     # the dq_state word functions against their word-level models (DqW), on generated words
     drv = ctx.driver()
     hl = ctx.harness("lfn")
